@@ -295,3 +295,9 @@ func c14CheckXY(c c14XYCase) h.Result {
 }
 
 func TestC14SetEdwardsFromXY(t *testing.T) { h.Run(t, c14GenXY, c14CheckXY) }
+
+// The map with four inputs at a time, one goroutine each (h.RunPar): no hidden
+// shared state in the Elligator code or the field routines beneath it.
+func TestC14ParMap(t *testing.T) {
+	h.RunPar(t, 4, func(t *rapid.T) c14In { return c14GenIn(t) }, c14CheckMap)
+}
